@@ -182,77 +182,89 @@ template<class T, int D, class P, bool Full> struct PH : Any {
 	}
 
 	// ---- projections ----
-	// kinds that exist for const and non-const views alike; W is `subarray<...>` or `subarray<...> const`
-	// (the library has separate overloads, and for D = 1 separate code, for the two)
-	template<class W> static std::unique_ptr<Any> project_common(W& w, std::string const& kind, std::vector<idx_t> const& a) {
+	// Every projection kind is reached through each value category of the source view, because the library has
+	// separate overloads (and for D = 1 partly separate code) for them:
+	//   <kind>     named view            (the & overloads)
+	//   c_<kind>   const reference       (the const& overloads)
+	//   r_<kind>   std::move(view)       (xvalue: the && overloads)
+	//   t_<kind>   view()                (prvalue temporary produced by a view operation: the && overloads)
+	// W is `subarray<...>&`, `subarray<...> const&` or `subarray<...>` (forwarding reference).
+	template<class W> static std::unique_ptr<Any> project_common(W&& w, std::string const& kind, std::vector<idx_t> const& a) {
 		if constexpr(std::is_pointer_v<P> && std::is_same_v<T, S>) {
-			if(kind == "member_a") { return rewrap<int, true>(w.template member_cast<int>(&S::a)); }
-			if(kind == "member_b") { return rewrap<int, true>(w.template member_cast<int>(&S::b)); }
-			if(kind == "member_c") { return rewrap<double, true>(w.template member_cast<double>(&S::c)); }
-			if(kind == "reint_R") { return rewrap<R16, false>(w.template reinterpret_array_cast<R16>()); }
-			if(kind == "reint_Q") { return rewrap<Q, false>(w.template reinterpret_array_cast<Q>()); }
-			if(kind == "reint_I") { return rewrap<int, true>(w.template reinterpret_array_cast<int>()); }
-			if(kind == "reintn_I") { return rewrap<int, true>(w.template reinterpret_array_cast<int>(a.at(0))); }
-			if(kind == "reintn_D") { return rewrap<double, true>(w.template reinterpret_array_cast<double>(a.at(0))); }
-			if(kind == "reintn_R") { return rewrap<R16, false>(w.template reinterpret_array_cast<R16>(a.at(0))); }
+			if(kind == "member_a") { return rewrap<int, true>(std::forward<W>(w).template member_cast<int>(&S::a)); }
+			if(kind == "member_b") { return rewrap<int, true>(std::forward<W>(w).template member_cast<int>(&S::b)); }
+			if(kind == "member_c") { return rewrap<double, true>(std::forward<W>(w).template member_cast<double>(&S::c)); }
+			if(kind == "reint_R") { return rewrap<R16, false>(std::forward<W>(w).template reinterpret_array_cast<R16>()); }
+			if(kind == "reint_Q") { return rewrap<Q, false>(std::forward<W>(w).template reinterpret_array_cast<Q>()); }
+			if(kind == "reint_I") { return rewrap<int, true>(std::forward<W>(w).template reinterpret_array_cast<int>()); }
+			if(kind == "reintn_I") { return rewrap<int, true>(std::forward<W>(w).template reinterpret_array_cast<int>(a.at(0))); }
+			if(kind == "reintn_D") { return rewrap<double, true>(std::forward<W>(w).template reinterpret_array_cast<double>(a.at(0))); }
+			if(kind == "reintn_R") { return rewrap<R16, false>(std::forward<W>(w).template reinterpret_array_cast<R16>(a.at(0))); }
 			if(kind == "tval") {
-				auto t = w.element_transformed(f_val{});
+				auto t = std::forward<W>(w).element_transformed(f_val{});
 				using TP = typename decltype(t)::element_ptr;
 				return wrap<long, TP, false>(t);
 			}
 		}
 		if constexpr(std::is_pointer_v<P> && std::is_same_v<T, Z>) {
-			if(kind == "reint_C") { return rewrap<CD, false>(w.template reinterpret_array_cast<CD>()); }
-			if(kind == "reint_D") { return rewrap<double, true>(w.template reinterpret_array_cast<double>()); }
-			if(kind == "reintn_D") { return rewrap<double, true>(w.template reinterpret_array_cast<double>(a.at(0))); }
+			if(kind == "reint_C") { return rewrap<CD, false>(std::forward<W>(w).template reinterpret_array_cast<CD>()); }
+			if(kind == "reint_D") { return rewrap<double, true>(std::forward<W>(w).template reinterpret_array_cast<double>()); }
+			if(kind == "reintn_D") { return rewrap<double, true>(std::forward<W>(w).template reinterpret_array_cast<double>(a.at(0))); }
 		}
 		if constexpr(std::is_pointer_v<P> && std::is_same_v<T, int>) {
 			// to a LARGER element: strides are divided, legal only when every stride*4 is a multiple of 8
 			// (layout.hpp:986); the generator asks the model's dom_scale and keeps the address 8-aligned
-			if(kind == "up_Q") { return rewrap<Q, false>(w.template reinterpret_array_cast<Q>()); }
+			if(kind == "up_Q") { return rewrap<Q, false>(std::forward<W>(w).template reinterpret_array_cast<Q>()); }
 		}
 		if constexpr(std::is_pointer_v<P> && std::is_same_v<T, CD>) {
-			if(kind == "member_re") { return rewrap<double, true>(w.template member_cast<double>(&CD::real)); }
-			if(kind == "member_im") { return rewrap<double, true>(w.template member_cast<double>(&CD::imag)); }
+			if(kind == "member_re") { return rewrap<double, true>(std::forward<W>(w).template member_cast<double>(&CD::real)); }
+			if(kind == "member_im") { return rewrap<double, true>(std::forward<W>(w).template member_cast<double>(&CD::imag)); }
 		}
 		throw unsupported("projection " + kind + " on element type " + code<T>::v);
 	}
 
-	std::unique_ptr<Any> project(std::string const& kind, std::vector<idx_t> const& a) override {
+	// kinds that need a mutable source (named or temporary)
+	template<class W> static std::unique_ptr<Any> project_mut(W&& w, std::string const& kind, std::vector<idx_t> const& a) {
 		constexpr bool raw = std::is_pointer_v<P>;
-		if(kind.size() > 2 && kind[0] == 'c' && kind[1] == '_') {      // through a const reference to the view
-			auto const& cv = v;
-			return project_common(cv, kind.substr(2), a);
-		}
 		if constexpr(raw && std::is_same_v<T, S>) {
-			if(kind == "static") { return rewrap<S, true>(v.template static_array_cast<S const>()); }
+			if(kind == "static") { return rewrap<S, true>(std::forward<W>(w).template static_array_cast<S const>()); }
 			// as_const() / const_array_cast() exist only in the D > 1 class at the pinned commit
 			if constexpr(D >= 2) {
-				if(kind == "asconst") { return rewrap<S, true>(v.as_const()); }
-				if(kind == "constcast") { return rewrap<S, true>(v.as_const().template const_array_cast<S>()); }
+				if(kind == "asconst") { return rewrap<S, true>(std::forward<W>(w).as_const()); }
+				if(kind == "constcast") { return rewrap<S, true>(std::forward<W>(w).as_const().template const_array_cast<S>()); }
 			}
 			if(kind == "tmem") {
-				auto t = v.element_transformed(&S::b);
+				auto t = std::forward<W>(w).element_transformed(&S::b);
 				using TP = typename decltype(t)::element_ptr;
 				return wrap<int, TP, false>(t);
 			}
 			if(kind == "tref") {
-				auto t = v.element_transformed(f_ref{});
+				auto t = std::forward<W>(w).element_transformed(f_ref{});
 				using TP = typename decltype(t)::element_ptr;
 				return wrap<double, TP, false>(t);
 			}
 		}
 		if constexpr(raw && std::is_same_v<T, Z>) {
-			if(kind == "zreal") { return rewrap<double, true>(multi::blas::real(v)); }        // blas/numeric.hpp:45-51
-			if(kind == "zimag") { return rewrap<double, true>(multi::blas::imag(v)); }        // :53-59
-			if(kind == "zdoubled") {                                                          // :61-65
-				if constexpr(D + 1 <= C12_MAXD) { return rewrap<double, true>(multi::blas::real_doubled(v)); } else { throw unsupported("rank"); }
+			if(kind == "zreal") { return rewrap<double, true>(multi::blas::real(std::forward<W>(w))); }        // blas/numeric.hpp:45-51
+			if(kind == "zimag") { return rewrap<double, true>(multi::blas::imag(std::forward<W>(w))); }        // :53-59
+			if(kind == "zdoubled") {                                                                           // :61-65
+				if constexpr(D + 1 <= C12_MAXD) { return rewrap<double, true>(multi::blas::real_doubled(std::forward<W>(w))); } else { throw unsupported("rank"); }
 			}
 			if constexpr(D >= 2) {
-				if(kind == "asconst") { return rewrap<Z, true>(v.as_const()); }
+				if(kind == "asconst") { return rewrap<Z, true>(std::forward<W>(w).as_const()); }
 			}
 		}
-		return project_common(v, kind, a);
+		return project_common(std::forward<W>(w), kind, a);
+	}
+
+	std::unique_ptr<Any> project(std::string const& kind, std::vector<idx_t> const& a) override {
+		if(kind.size() > 2 && kind[1] == '_') {
+			auto const k = kind.substr(2);
+			if(kind[0] == 'c') { auto const& cv = v; return project_common(cv, k, a); }   // const&
+			if(kind[0] == 'r') { return project_mut(std::move(v), k, a); }                // xvalue (this holder is discarded afterwards)
+			if(kind[0] == 't') { return project_mut(v(), k, a); }                         // prvalue: the view returned by operator()()
+		}
+		return project_mut(v, kind, a);
 	}
 
 	// ---- view operations (same as dynview.hpp, for any pointer type) ----
